@@ -100,6 +100,8 @@ def trusted_scan(gen_path, meta):
 
 KIND_RULES = [
     (r"postcondition not satisfied", "postcondition"),
+    (r"unable to prove post-condition of closure", "closure-postcondition"),
+    (r"unable to prove pre-condition|closure.*precondition", "precondition"),
     (r"precondition not satisfied", "precondition"),
     (r"precondition not met: index in bounds|index out of bounds|possible index", "index-bounds"),
     (r"invariant not satisfied at end of loop body", "invariant-preserved"),
@@ -164,8 +166,8 @@ def count_obligations(gen_lines, linemap, it, contracted_names):
     return total, n
 
 
-def run_verus(gen_path, extra=None, timeout=600, function=None):
-    cmd = [VERUS, gen_path, "--output-json", "--time-expanded", "--multiple-errors", "6"]
+def run_verus(gen_path, extra=None, timeout=600, function=None, multiple_errors="6"):
+    cmd = [VERUS, gen_path, "--output-json", "--time-expanded", "--multiple-errors", multiple_errors]
     if function:
         cmd += ["--verify-root", "--verify-function", function]
     cmd += extra or []
@@ -187,7 +189,10 @@ def run_verus(gen_path, extra=None, timeout=600, function=None):
     return rc, res, diags, err, wall, " ".join(cmd)
 
 
-def make_canary(gen_path, meta, out_path):
+from rustlex import match_close as match_close_
+
+
+def make_canary(gen_path, meta, out_path, shard=0, nshards=1):
     """Copy of the generated file in which every contracted fn with a `requires` gets
     `proof { assert(false); }` as the first statement of its body.  Each must FAIL there."""
     with open(gen_path) as f:
@@ -215,10 +220,12 @@ def make_canary(gen_path, meta, out_path):
         inserts[ob] = it["name"]
     out, last = [], 0
     canary_lines = {}
+    # the whole body is replaced: only the precondition is in scope of the assert(false) (cheap query)
     for pos in sorted(inserts):
+        close = match_close_(m_text, pos)
         out.append(text[last:pos + 1])
-        out.append(" proof { assert(false); } /*CANARY:" + inserts[pos] + "*/ ")
-        last = pos + 1
+        out.append(" proof { assert(false); } /*CANARY:" + inserts[pos] + "*/ vstd::pervasive::unreached() }")
+        last = close + 1
     out.append(text[last:])
     new = "".join(out)
     with open(out_path, "w") as f:
@@ -253,6 +260,30 @@ def run_unit(unit, tier="quick", seeds=None):
     res["assumptions"] = ucfg.get("assumptions", [])
     res["not_under_contract"] = ucfg.get("not_under_contract", [])
 
+    # the vacuity canary file is verified concurrently with the unit itself
+    import concurrent.futures as _cf
+    # one canary file (every contracted fn with a `requires` gets the body `assert(false); unreached()`), checked
+    # function by function in separate verus processes (a failing query slows down every later query of the
+    # same process, so they are run in parallel instead)
+    cl, can_futs = {}, []
+    _ex = _cf.ThreadPoolExecutor(max_workers=int(os.environ.get("VERIF_JOBS", "12")))
+    try:
+        can = os.path.join(BUILD, f"{unit}__canary.rs")
+        cl0 = make_canary(gen, meta, can)
+        if cl0:
+            cl[0] = cl0
+            for ln_, nm_ in cl0.items():
+                short = nm_.split("#")[-1]
+                mm_ = re.fullmatch(r"<(\w+) as (\w+)>::(\w+)", short)
+                if mm_:
+                    short = mm_.group(3)
+                if short.startswith("trait "):
+                    continue
+                pat = "*" + short if "::" in short else "*::" + short
+                can_futs.append((nm_, ln_, _ex.submit(run_verus, can, (ucfg.get("verus_args") or []) + ["--num-threads", "1"], 300, pat, "0")))
+    except Exception as e:  # canary generation must never turn into an alarm
+        cl, can_futs = {}, []
+        res["canary_error"] = str(e)
     rc, out, diags, err, wall, cmd = run_verus(gen, extra=ucfg.get("verus_args"))
     res["verus_cmd"] = cmd
     with open(gen) as f:
@@ -367,21 +398,21 @@ def run_unit(unit, tier="quick", seeds=None):
         return res
     # ---- vacuity canaries: only meaningful when the unit itself verifies
     if res["status"] == "ok":
-        can = os.path.join(BUILD, unit + "__canary.rs")
-        cl = make_canary(gen, meta, can)
         if cl:
-            rc2, out2, diags2, err2, wall2, cmd2 = run_verus(can, extra=ucfg.get("verus_args"))
-            hit = set()
-            for d in diags2:
-                if d.get("level") != "error":
-                    continue
-                for s in d["spans"]:
-                    if s.get("is_primary") and s["line_start"] in cl and "assertion failed" in d["message"]:
-                        hit.add(cl[s["line_start"]])
-            vac = sorted(set(cl.values()) - hit)
+            hit, expected = set(), set()
+            for nm_, ln_, fut in can_futs:
+                rc2, out2, diags2, err2, wall2, cmd2 = fut.result()
+                expected.add(nm_)
+                for d in diags2:
+                    if d.get("level") != "error":
+                        continue
+                    for s_ in d["spans"]:
+                        if s_.get("is_primary") and s_["line_start"] == ln_ and "assertion failed" in d["message"]:
+                            hit.add(nm_)
+            vac = sorted(expected - hit)
             res["canaries"] = len(hit)
             if vac:
-                res.update(status="undecided", reason=f"vacuity: precondition of {vac} is contradictory (assert(false) verified)")
+                res.update(status="undecided", reason=f"vacuity: precondition of {vac} is contradictory or the canary could not be checked (assert(false) not refuted)")
                 return res
     # ---- thorough: re-verify under other seeds (instability is reported, never a violation)
     if tier == "thorough" and res["status"] == "ok":
